@@ -74,8 +74,12 @@ def gen_case(rnd, tier='quick'):
                     tasks[a]['estimate'], tasks[b]['estimate'], tasks[c_]['estimate'] = pick
                     tasks[a]['spent'] = tasks[b]['spent'] = tasks[c_]['spent'] = None
     ext = []
-    if rnd.random() < 0.12:
-        ext = [{'id': 100, 'estimate': rnd.choice(['5', '50', None]), 'succ': [rnd.randrange(n)]}]
+    if rnd.random() < 0.15:
+        # a predecessor outside the WBS; half of the time its id equals the id of a member, half of the time it lives in another WBS
+        ext = [{'id': rnd.choice([100, rnd.randint(1, n)]), 'estimate': rnd.choice(['5', '50', None]), 'succ': [rnd.randrange(n)],
+                'in_other_wbs': rnd.random() < 0.5}]
+        if rnd.random() < 0.3:
+            ext.append({'id': rnd.randint(1, n), 'estimate': '30', 'succ': [rnd.randrange(n)], 'in_other_wbs': True, 'ext_pred': True})
     return {'kind': 'cp', 'tasks': tasks, 'links': links, 'externals': ext}
 
 
@@ -129,8 +133,18 @@ def build(case):
     for s_, p_ in case['links']:
         objs[s_].predecessors.append(objs[p_])
     exts = []
+    other = None
     for e in case.get('externals') or []:
         x = Task(e['id'], 'ext', estimate=num(e['estimate']))
+        if e.get('in_other_wbs'):
+            if other is None:
+                other = WBS()
+            try:
+                other.roots.append(x)
+            except RuntimeError:
+                pass
+        if e.get('ext_pred') and exts:
+            x.successors.append(exts[0])       # a chain of outside tasks in front of the member
         for i in e['succ']:
             objs[i].predecessors.append(x)
         exts.append(x)
